@@ -283,6 +283,11 @@ func (f *FibStrategyHashTable) InsertNextHopEnc(name enc.Name, nexthop uint64, c
 	f.fibStrategyRWMutex.Lock()
 	defer f.fibStrategyRWMutex.Unlock()
 
+	f.insertNextHopEnc(name, nexthop, cost)
+}
+
+// insertNextHopEnc is InsertNextHopEnc without locking (the caller holds the write lock).
+func (f *FibStrategyHashTable) insertNextHopEnc(name enc.Name, nexthop uint64, cost uint64) {
 	realEntry := f.insertEntryEnc(name)
 
 	for i, existingNextHop := range realEntry.nexthops {
@@ -306,10 +311,29 @@ func (f *FibStrategyHashTable) ClearNextHopsEnc(name enc.Name) {
 	f.fibStrategyRWMutex.Lock()
 	defer f.fibStrategyRWMutex.Unlock()
 
+	f.clearNextHopsEnc(name)
+}
+
+// clearNextHopsEnc is ClearNextHopsEnc without locking (the caller holds the write lock).
+func (f *FibStrategyHashTable) clearNextHopsEnc(name enc.Name) {
 	entry, ok := f.realTable[name.Hash()]
 	if ok {
 		entry.nexthops = make([]*FibNextHopEntry, 0)
 		f.pruneTables(entry)
+	}
+}
+
+// ReplaceNextHopsEnc replaces the nexthops of all the given prefixes while
+// holding the write lock once.
+func (f *FibStrategyHashTable) ReplaceNextHopsEnc(updates []FibNextHopsUpdate) {
+	f.fibStrategyRWMutex.Lock()
+	defer f.fibStrategyRWMutex.Unlock()
+
+	for _, update := range updates {
+		f.clearNextHopsEnc(update.Name)
+		for _, nexthop := range update.NextHops {
+			f.insertNextHopEnc(update.Name, nexthop.Nexthop, nexthop.Cost)
+		}
 	}
 }
 
